@@ -387,6 +387,18 @@ def check_sky(case, ctx):
             require(bit_equal(np.asarray(t_sky[col], float),
                               np.asarray(t_pix[col], float)), 'sky_vs_pixel',
                     f'{col}: {list(t_sky[col])} vs {list(t_pix[col])}')
+    # NDData call form carrying the WCS
+    from astropy.nddata import NDData, StdDevUncertainty
+    with warnings.catch_warnings():
+        warnings.simplefilter('ignore')
+        nd = NDData(data, uncertainty=StdDevUncertainty(error) if error is not None
+                    else None, mask=mask, wcs=w)
+        t_nd = aperture_photometry(nd, sap, **kw)
+    for col in ('aperture_sum', 'aperture_sum_err'):
+        if col in t_pix.colnames:
+            require(bit_equal(np.asarray(t_nd[col], float),
+                              np.asarray(t_pix[col], float)), 'sky_nddata_vs_pixel',
+                    f'{col}: {list(t_nd[col])} vs {list(t_pix[col])}')
     # to_pixel lands on the generating pixel positions
     pp = np.atleast_2d(pap.positions)
     n = 1 if case['scalar_coord'] else len(pos)
